@@ -166,6 +166,7 @@ func propC11(r *kernel.Run) {
 	rotations := 0
 	var flying []*inflight
 	checked := map[*epochKeys]bool{}
+	lastOfType := map[string]proto.Message{}
 	nsteps := tp.Range(10, 60)
 	for st := 0; st < nsteps; st++ {
 		// key agreement: both sides of one epoch derive the same secret and key ID, equal to an independent X25519
@@ -268,6 +269,14 @@ func propC11(r *kernel.Run) {
 				r.Count("fault.wire."+corrupt, 1)
 			}
 			out := f.msg.ProtoReflect().New().Interface()
+			dirty := ""
+			if prevOfType := lastOfType[fmt.Sprintf("%T", f.msg)]; prevOfType != nil && tp.Draw(3) == 0 {
+				// the caller reuses a message that still holds an earlier, different message of the same type
+				out = proto.Clone(prevOfType)
+				dirty = " destination-holds-earlier-message"
+				r.Count("cfg.decrypt_into_reused_message", 1)
+			}
+			lastOfType[fmt.Sprintf("%T", f.msg)] = f.msg
 			var err error
 			prod := recv.producer(r)
 			blank := ""
@@ -291,7 +300,7 @@ func propC11(r *kernel.Run) {
 			held := rotations - f.sentAt
 			r.Count("cases", 1)
 			r.Count("ops.decrypt", 1)
-			desc := fmt.Sprintf("toNode=%v sentEpoch=%d recvCur=%d recvPrev=%v heldAcross=%d corrupt=%s type=%T%s -> err=%s", f.toNode, f.from.n, recv.cur.n, prevN(recv.prev), held, corrupt, f.msg, blank, shortErr(err))
+			desc := fmt.Sprintf("toNode=%v sentEpoch=%d recvCur=%d recvPrev=%v heldAcross=%d corrupt=%s type=%T%s%s -> err=%s", f.toNode, f.from.n, recv.cur.n, prevN(recv.prev), held, corrupt, f.msg, blank, dirty, shortErr(err))
 			if corrupt == "none" {
 				switch {
 				case (matchCur || matchPrev) && err != nil:
